@@ -182,15 +182,15 @@ func checkDStar(c dstarCase) *vk.Failure {
 	if f == nil {
 		return nil
 	}
+	if zero {
+		return vk.Failf("zero-weight-world", "world with zero-weight arcs: %s: %s", f.Key, f.Msg)
+	}
 	if c.S == c.T {
 		for _, op := range c.Ops {
 			if op.Kind == opMove {
 				return vk.Failf("start-at-goal-then-moveto", "NewDStarLite with start == goal followed by MoveTo: %s: %s", f.Key, f.Msg)
 			}
 		}
-	}
-	if zero {
-		return vk.Failf("zero-weight-world", "world with zero-weight arcs: %s: %s", f.Key, f.Msg)
 	}
 	return f
 }
@@ -455,9 +455,9 @@ func drawDStar(t *rapid.T) dstarCase {
 	}
 	c.S = r.Intn(n)
 	c.T = r.Intn(n)
-	c.HMode = rapid.IntRange(0, 2).Draw(t, "hmode")
+	c.HMode = rapid.SampledFrom([]int{2, 2, 0, 1}).Draw(t, "hmode")
 	c.HF = rapid.IntRange(1, len(hFactors)-1).Draw(t, "hf")
-	nops := rapid.IntRange(0, vk.Pick(12, 40)).Draw(t, "nops")
+	nops := rapid.IntRange(0, vk.Pick(24, 40)).Draw(t, "nops")
 	for i := 0; i < nops; i++ {
 		var op dsOp
 		switch k := rapid.IntRange(0, 9).Draw(t, "op"); {
